@@ -76,8 +76,12 @@ PROPS.update({
                'with strictly increasing ids. Sorting/re-queueing at close and CONNACK is bounded (E-B).', design_ref='DESIGN.md 3/C10'),
     'C11': _ev(['protocol', 'client', 'codec', 'alias', 'ws'], 'Every panic!/unwrap/assert/index/overflow inside the 70+ extracted engine functions is a discharged obligation under wf; every entry point returns Err => Halted, '
                'Halted rejects service and traffic.', design_ref='DESIGN.md 3/C11'),
-    'C12': _ev(['client', 'protocol'], 'Complete proof of the lifecycle decision table compute_optional_state_transition (all current x desired x stop-option cases); event grammar of '
-               'transition_to_state is bounded (E-B); thread/task interleavings are outside contract-based verification.', design_ref='DESIGN.md 3/C12'),
+    'C12': _ev(['client', 'protocol'], 'Mostly BOUNDED: the event grammar, loop survival, bounded stop-liveness and close-is-terminal are decided by bounded exploration of the real '
+               'MqttClientImpl over all driver step sequences of a stated length (stand-in, never counted as proved). Proved (unbounded, Verus): the lifecycle decision table '
+               'compute_optional_state_transition (all current x desired x stop-option cases) and the engine side of a stop with DISCONNECT. No contract within reach expresses '
+               'the event-stream grammar or "in bounded time once the transport reacts"; thread/task interleavings of the drivers are outside contract-based verification.',
+               design_ref='DESIGN.md 3/C12', level='exploration',
+               technique='bounded exploration of the real client state machine (stand-in) + Verus function contracts on the lifecycle decision table'),
     'C14': _ev(['protocol'], 'Proof of service_keep_alive (deadline = now + min(ping timeout, K*500ms), next ping = now + K s, one PINGREQ at the front), handle_connack (first ping), '
                'handle_pingresp, and that completion only ever moves the next ping later.', design_ref='DESIGN.md 3/C14'),
     'C15': _ev(['protocol'], 'Proof that does_packet_pass_offline_queue_policy equals the policy table for every packet kind x policy, and that submission while not connected / close of the '
@@ -108,8 +112,11 @@ PROPS.update({
     'C16': _ev(['validate'], 'Unbounded proofs, in both directions (Ok <=> rules hold), for validate_user_properties, validate_publish_packet_outbound(_internal), '
                'validate_subscribe_packet_outbound(_internal), is_valid_topic_filter_internal, and the length helpers they use.', design_ref='DESIGN.md 3/C16',
                level_note=TRUST_COMMON + ' Topic / filter grammar functions (is_valid_topic, compute_topic_filter_properties) and validate_string_length are assumed contracts here, examined by E-K (bounded).'),
-    'C13': _ev(['ws'], 'Unbounded proof that MessageCursor::read hands over the next min(remaining, dest.len()) payload bytes in order exactly once. The wrapper loop over tungstenite messages is a bounded check (E-B); '
-               'thread/task interleavings of the two drivers and the submit/close races are outside contract-based verification.', design_ref='DESIGN.md 3/C13',
+    'C13': _ev(['ws'], 'Mostly BOUNDED: the two drivers are async / threaded code that no contract within reach can express (task and thread interleavings, select!, channels); the property is '
+               'decided by bounded executable checks of the REAL tokio and threaded clients over scripted transports (partial writes, Pending / WouldBlock patterns, resets, reconnect, operations '
+               'around close) and of the websocket wrapper with real tungstenite - stand-ins with stated bounds, never counted as proved. Proved (unbounded, Verus): MessageCursor::read hands over '
+               'the next min(remaining, dest.len()) payload bytes in order exactly once.', design_ref='DESIGN.md 3/C13', level='exploration',
+               technique='bounded executable checks of the real drivers over scripted transports (stand-in) + Verus function contract on the websocket message cursor',
                level_note=TRUST_COMMON + ' tungstenite Message / WebSocket are shims.'),
     'C17': _ev(['alias', 'protocol'], 'Unbounded proofs for the inbound resolver (empty topic -> bound topic or error; 0 / out-of-range -> error; reset empties), the manual and null outbound resolvers '
                '(skip-topic only for an alias currently bound to exactly that topic; alias in 1..=max; table updated exactly when an alias is sent with its topic), and that the engine resets both at CONNACK. '
